@@ -15,6 +15,7 @@ Check(e, T) ==
   \cup F("Len", e.len = Cardinality(T))
   \cup F("RoundTrip", e.rterr = "" /\ SeqToSet(e.rt) = T \cap Probes /\ e.rtlen = Cardinality(T))
   \cup F("IncludesSelf", e.inclself)
+  \cup F("RoundTripIncludes", e.rterr # "" \/ e.rtincl)      \* the set read back includes, and is included in, the original and itself
   \cup F("IncludesSuperset", ~e.inclplus)
   \cup F("IncludesSingletons", SeqToSet(e.inclsub) = T \cap Probes)
 New == /\ l <= Len(Trace) /\ Trace[l].ev = "New" /\ S' = {} /\ n' = n + 1 /\ UNCHANGED fails /\ l' = l + 1
